@@ -394,7 +394,7 @@ pub fn check_crash_left(c: &CrashCase21) -> CheckResult {
 }
 
 pub fn build(ctx: &Ctx) -> Vec<Box<dyn Arm>> {
-    ctx.rule("files produced by generated histories (plain/embedded/chunked puts, updates, deletes, commits, reopen), taken either as a process kill leaves them (file copied while the handle is alive: acknowledged records still pending in the log) or after a clean close, then (cleanly closed files only: one cause per input) damaged in ONE repairable structure (header footer pointer; header TOC checksum; the TOC's own checksum field; commit footer magic/length/hash/generation; bytes inside the time index / a lexical segment / the vector index) or left undamaged; doctor with all 2^5 combinations of rebuild_time/rebuild_lex/rebuild_vec/vacuum/dry_run; oracle: dry_run leaves the bytes unchanged; otherwise doctor returns a report that is not Failed, the file opens and the reference model of every acknowledged operation (committed or pending) matches the frame table, contents and (unless the vector segment was the damaged structure) embeddings; verify(deep) == Passed; an immediate second run with default options reports Clean and changes no frame; non-trivial = the input needed a repair (damage or pending records)");
+    ctx.rule("files produced by generated histories (plain/embedded/chunked puts, updates, deletes, commits, reopen), taken either as a process kill leaves them (file copied while the handle is alive: acknowledged records still pending in the log) or after a clean close, then damaged in ONE repairable structure (kill-left files: only in the header pointer / header TOC checksum; index, footer and TOC-field damage is applied to cleanly closed files only, one cause per input) (header footer pointer; header TOC checksum; the TOC's own checksum field; commit footer magic/length/hash/generation; bytes inside the time index / a lexical segment / the vector index) or left undamaged; doctor with all 2^5 combinations of rebuild_time/rebuild_lex/rebuild_vec/vacuum/dry_run; oracle: dry_run leaves the bytes unchanged; otherwise doctor returns a report that is not Failed, the file opens and the reference model of every acknowledged operation (committed or pending) matches the frame table, contents and (unless the vector segment was the damaged structure) embeddings; verify(deep) == Passed; an immediate second run with default options reports Clean and changes no frame; non-trivial = the input needed a repair (damage or pending records)");
     ctx.assume("embeddings live only in the vector index: when that segment itself is destroyed their loss is not asserted; log damage is outside the property's list");
     ctx.rule("arm crash_left: histories recorded by the C02 engine; a few syscall prefixes strictly inside an API call (with >= 1 call acknowledged) are materialised and handed to doctor with generated options; oracle: doctor does not fail on a file that Memvid::open accepts, the result opens, no acknowledged active frame is lost or altered, verify(deep) Passed, second run Clean; inputs that Memvid::open itself rejects (C02's listed in-place windows) may be declined");
     let t = ctx.tier;
@@ -414,8 +414,9 @@ pub fn build(ctx: &Ctx) -> Vec<Box<dyn Arm>> {
         move || {
             (1u8..5, prop::collection::vec(op(), 1..=t.pick(14, 40)), prop::bool::weighted(0.6), damage(), (any::<bool>(), any::<bool>(), any::<bool>(), prop::bool::weighted(0.3), prop::bool::weighted(0.15)))
                 .prop_map(|(dim, ops, kill, damage, opts)| {
-                    // "crash-interrupted OR damaged only in ...": one cause per input file
-                    let damage = if kill { Damage::None } else { damage };
+                    // "crash-interrupted OR damaged only in ...": one cause per input file, except that a kill-left
+                    // file may also carry a damaged header field (both are header-healing inputs of the same run)
+                    let damage = if kill && !matches!(damage, Damage::HeaderPointer { .. } | Damage::HeaderTocChecksum { .. }) { Damage::None } else { damage };
                     Case { dim, ops, kill, damage, opts }
                 })
         },
